@@ -45,7 +45,8 @@ type c15Fault struct{}
 func (c15Fault) Error() string { return "c15 injected store fault" }
 
 type c15UnitRec struct {
-	parent    int // 1-based index of the enclosing unit, 0 = top level
+	site      string // source position of the ApplyFuncIfNoError call that opened the unit
+	parent    int    // 1-based index of the enclosing unit, 0 = top level
 	own       int // store accesses whose innermost branch is this unit
 	committed bool
 }
@@ -129,8 +130,29 @@ type c15MS struct {
 	parent *c15MS
 }
 
+// c15ApplySite: file:line of the caller of the innermost ApplyFuncIfNoError frame ("" if none).
+func c15ApplySite() string {
+	pcs := make([]uintptr, 64)
+	n := runtime.Callers(3, pcs)
+	frames := runtime.CallersFrames(pcs[:n])
+	for {
+		f, more := frames.Next()
+		if strings.HasSuffix(f.Function, "comdex/types.ApplyFuncIfNoError") && more {
+			c, _ := frames.Next()
+			file := c.File
+			if i := strings.Index(file, "/x/"); i >= 0 {
+				file = file[i+1:]
+			}
+			return file + ":" + strconv.Itoa(c.Line)
+		}
+		if !more {
+			return ""
+		}
+	}
+}
+
 func (m *c15MS) CacheMultiStore() storetypes.CacheMultiStore {
-	m.rec.units = append(m.rec.units, c15UnitRec{parent: m.unit})
+	m.rec.units = append(m.rec.units, c15UnitRec{parent: m.unit, site: c15ApplySite()})
 	child := &c15MS{c15Inner: m.c15Inner.CacheMultiStore(), rec: m.rec, parent: m, unit: len(m.rec.units)}
 	m.rec.cur = child
 	return child
@@ -330,11 +352,13 @@ func (w *c15World) campaign(scen string, state sdk.Context, blockers []c15Blocke
 		}
 		for ui, u := range base.units {
 			unit := ui + 1
+			w.tr.Count("site:" + u.site)
 			if u.own == 0 {
 				w.tr.Count("unit:no-access")
 				continue
 			}
 			w.tr.Count("units")
+			w.tr.Count("site-with-faults:" + u.site)
 			if u.committed {
 				w.tr.Count("unit:committed-in-baseline")
 			} else {
